@@ -45,6 +45,7 @@ type c20Ig struct {
 
 func (i c20Ig) decl() *refmodel.Decl {
 	d := simpleTxDecl(i.name, 1)
+	d.Table = strings.ReplaceAll(i.name, "-", "_")
 	d.Enabled = i.enabled
 	d.Sources = i.srcs
 	return d
@@ -173,9 +174,15 @@ func c20Property(rt *rapid.T, ev *evid.Rec) {
 	held := make(chan struct{}, 16)
 	release := make(chan struct{})
 	var gate func(n *sim.Node, ri sim.ReqInfo) *sim.Fault
+	// names may contain dashes (the identifier rule allows them)
+	dashed := nsrc >= 2 && rapid.IntRange(0, 2).Draw(rt, "dashednames") == 0
 	for i := 0; i < nsrc; i++ {
 		// two sources may serve the same chain (a head-following node and an archive node)
-		s := &c20Src{name: fmt.Sprintf("src%d", i+1), chainID: uint64(10 + i*rapid.IntRange(0, 1).Draw(rt, "ownchain")), batch: rapid.IntRange(0, 4).Draw(rt, "batch"), conc: rapid.IntRange(0, 3).Draw(rt, "conc")}
+		sname := fmt.Sprintf("src%d", i+1)
+		if i == 1 && dashed {
+			sname = "src1-a" // "src1" + "a-igN" and "src1-a" + "igN" read the same when joined by a dash
+		}
+		s := &c20Src{name: sname, chainID: uint64(10 + i*rapid.IntRange(0, 1).Draw(rt, "ownchain")), batch: rapid.IntRange(0, 4).Draw(rt, "batch"), conc: rapid.IntRange(0, 3).Draw(rt, "conc")}
 		switch rapid.IntRange(0, 3).Draw(rt, "srcwhere") {
 		case 0:
 			s.inDB = true
@@ -251,6 +258,12 @@ func c20Property(rt *rapid.T, ev *evid.Rec) {
 	}
 	for i := 0; i < nig; i++ {
 		name := fmt.Sprintf("ig%d", i+1)
+		if dashed {
+			name = fmt.Sprintf("ig%d", i/2+1)
+			if i%2 == 1 {
+				name = "a-" + name
+			}
+		}
 		switch rapid.IntRange(0, 3).Draw(rt, "igwhere") {
 		case 0:
 			dbIgs = append(dbIgs, mkIg(name, "db"))
@@ -686,7 +699,7 @@ func c20Property(rt *rapid.T, ev *evid.Rec) {
 			fail("tasks of source %s finished (%d positions at the stop block) but the node of %s was never asked for a block: they talked to another source's node (history %v)", s.name, done, s.name, hist)
 		}
 	}
-	ev.Case(clash || unknownRef || gated || b2b, fmt.Sprint(file, dbIgs, hist), fmt.Sprintf("sameChainSources=%v", sameChain), fmt.Sprintf("manySources=%v", len(fillers) > 0), fmt.Sprintf("clash=%v", clash), fmt.Sprintf("unknownSource=%v", unknownRef), fmt.Sprintf("restartDuringStep=%v", gated), fmt.Sprintf("backToBack=%v", b2b), fmt.Sprintf("restartWhileLoading=%v", loadOverlap), fmt.Sprintf("savedTwice=%v", savedTwice), fmt.Sprintf("taskSetupFault=%v", setupFault), fmt.Sprintf("neverEndingTask=%v", forever), fmt.Sprintf("storedNew=%v", storedNew), fmt.Sprintf("storedSourceEdited=%v", srcEdited))
+	ev.Case(clash || unknownRef || gated || b2b, fmt.Sprint(file, dbIgs, hist), fmt.Sprintf("sameChainSources=%v", sameChain), fmt.Sprintf("manySources=%v", len(fillers) > 0), fmt.Sprintf("clash=%v", clash), fmt.Sprintf("unknownSource=%v", unknownRef), fmt.Sprintf("restartDuringStep=%v", gated), fmt.Sprintf("backToBack=%v", b2b), fmt.Sprintf("restartWhileLoading=%v", loadOverlap), fmt.Sprintf("savedTwice=%v", savedTwice), fmt.Sprintf("taskSetupFault=%v", setupFault), fmt.Sprintf("neverEndingTask=%v", forever), fmt.Sprintf("storedNew=%v", storedNew), fmt.Sprintf("storedSourceEdited=%v", srcEdited), fmt.Sprintf("dashedNames=%v", dashed))
 	if (gated || b2b) && ev.WantSample(3) {
 		ev.Sample(3, map[string]any{"file_integrations": fmt.Sprint(file), "db_integrations": fmt.Sprint(dbIgs), "history": hist})
 	}
